@@ -98,6 +98,42 @@ func TestVerifC20(t *testing.T) {
 		cmp(b, a, l, "borrow-chain")
 		r.EvalN(fmt.Sprintf("cmp:structured,len=%d", l), l*8+5)
 	}
+	// ARGUMENT SHAPES: only the first l bytes count; the slices themselves may be longer, independently of
+	// each other (a exact and b a longer buffer, or the reverse), and what follows the first l bytes may
+	// be equal or different; spare capacity likewise. All 3 x 3 combinations of (exact, +1, +k) for every l.
+	nShape := 0
+	for l := 0; l <= 40; l++ {
+		for _, ea := range []int{0, 1, 5 + l%7} {
+			for _, eb := range []int{0, 1, 3 + l%11} {
+				for rel := 0; rel < 4; rel++ {
+					a := rng.Bytes(l + ea)
+					b := rng.Bytes(l + eb)
+					switch rel {
+					case 0: // equal first l bytes, tails differ
+						copy(b, a[:l])
+					case 1: // equal first l bytes, b's tail larger / a's tail larger
+						copy(b, a[:l])
+						for i := l; i < len(a); i++ {
+							a[i] = 0xff
+						}
+						for i := l; i < len(b); i++ {
+							b[i] = 0
+						}
+					case 2: // differ in the last counted byte only
+						copy(b, a[:l])
+						if l > 0 {
+							b[l-1] ^= 0x10
+						}
+					}
+					// spare capacity beyond the length as well
+					a2 := append(make([]byte, 0, len(a)+rel*3), a...)
+					cmp(a2, b, l, fmt.Sprintf("shape:len(a)=l+%d,len(b)=l+%d", min3(ea, 2), min3(eb, 2)))
+					nShape++
+				}
+			}
+		}
+	}
+	r.EvalN("cmp:argument-shapes", nShape)
 	// sparse differences: a and b agree everywhere except on a structured subset of byte positions
 	// (one byte with all others equal; two bytes pulling in opposite directions; only the high or
 	// only the low halves of 2/4/8/16-byte words aligned from either end; every k-th byte). An
@@ -290,4 +326,11 @@ func TestVerifC20(t *testing.T) {
 		})
 		r.EvalN(fmt.Sprintf("naf:w=%d", w), len(inputs))
 	}
+}
+
+func min3(a, b int) int {
+	if a < b {
+		return a
+	}
+	return b
 }
